@@ -26,7 +26,7 @@ def r01a(ctx, rep):
         return
     # slot check: the persist routine reaches RaftWal::append with a TermAndVote record
     if not any(st[1][0] == 'agg' and st[1][1].endswith('RaftWalEntry::TermAndVote') for b in persist_fn.bbs for st in b['s']) \
-            or not A.calls_to(persist_fn, ('re', r'raft_wal::RaftWal::<.*>::append$|RaftWal<.*>::append$|raft_wal::RaftWal.*::append')):
+            or not A.calls_to(persist_fn, ('re', r'raft_wal::RaftWal(::<.*>)?::append$|RaftWal<.*>::append$|raft_wal::RaftWal.*::append')):
         rep.violation('R01a', persist_fn, 'TermAndVote-append', persist_fn.loc(),
                       'persist_term_and_vote no longer builds a TermAndVote record and appends it to the Raft WAL')
     else:
